@@ -254,6 +254,8 @@ class SubQueryLineageHolder(ColumnLineageMixin):
         target_columns = self.get_table_columns(tgt_table)
         for src_col in src_table_columns:
             new_column = Column(src_col.raw_name)
+            # the name is normalised already, normalising twice would lower-case a quoted name
+            new_column.raw_name = src_col.raw_name
             new_column.parent = tgt_table
             if src_col.raw_name == "*":
                 continue
@@ -481,6 +483,7 @@ class SQLLineageHolder(ColumnLineageMixin):
             # check if source column exists in graph (either from subquery or from table created in prev statement)
             for parent in unresolved_col.parent_candidates:
                 src_col = Column(unresolved_col.raw_name)
+                src_col.raw_name = unresolved_col.raw_name
                 src_col.parent = parent
                 if g.has_edge(parent, src_col):
                     src_cols.append(src_col)
